@@ -8,6 +8,7 @@ Correspondence (model = lean/TPV/Model/DeepONet.lean through lean/drivers/C09.le
           output, grad_input, grad_weight, grad_bias
   mesh  : FunctionSet meshgrid / function batch / collections, exact
   uniq  : plain trunk with one location set per function
+  conv  : ConvBranchNet1D, property oracles only (its layers are not modelled)
   nondiv: output_neurons not divisible by the output dimension must be rejected (or handled consistently)
   malformed branch tensors (wrong number of points) are counted, never judged
 Property oracles (run on every case, independent of the Lean model):
@@ -166,6 +167,17 @@ def gen_uniq(ctx, idx):
     return case
 
 
+def gen_conv(ctx, idx):
+    """ConvBranchNet1D (its layers are not modelled): property oracles only"""
+    case = gen_net(ctx, 0)
+    case["kind"] = "conv"
+    case["seq"] = False
+    if case["primary"] == "tensor3bad":
+        case["primary"] = "tensor3"
+    case["torch_seed"] = ctx.rng.randrange(10 ** 6)
+    return case
+
+
 def gen_lin(ctx, idx):
     rng = ctx.rng
     nin, nout = rng.randint(1, 4), rng.randint(1, 4)
@@ -221,6 +233,8 @@ def gen_cases(ctx):
         cases.append(gen_net(ctx, i))
     for i in range(ctx.scale(50, 500)):
         cases.append(gen_uniq(ctx, i))
+    for i in range(ctx.scale(30, 300)):
+        cases.append(gen_conv(ctx, i))
     for i in range(ctx.scale(400, 4000)):
         cases.append(gen_lin(ctx, i))
     for i in range(ctx.scale(80, 800)):
@@ -621,6 +635,50 @@ def judge_uniq(rep, case, res, reply):
         rep.disagree(f"DeepONet.forward (plain trunk, per-function locations) vs TPV.DeepONet.forward in Float: {maxdiff(impl, model):.3g}", case, impl, model)
 
 
+def run_conv(case):
+    e = env(); tp = e["tp"]; torch = e["torch"]; np = e["np"]
+    T, U, Fo, Ti, Kp = spaces_of(case)
+    res = dict(problems=[])
+    fs = tp.spaces.FunctionSpace(tp.domains.Interval(Ti, 0, 1), Fo)
+    disc = e["Fixed"](tp.spaces.Points(t64(case["pts"]), Ti))
+    torch.manual_seed(case["torch_seed"])
+    B, N, d, K = case["B"], case["N"], case["d"], case["neurons"] // case["d"]
+    try:
+        trunk = tp.models.FCTrunkNet(T, hidden=tuple(case["trunk_hidden"]))
+        conv = torch.nn.Conv1d(case["fdim"], case["fdim"], kernel_size=1)
+        branch = tp.models.ConvBranchNet1D(fs, disc, conv, hidden=tuple(case["branch_hidden"]))
+        net = tp.models.DeepONet(trunk, branch, U, case["neurons"]).double()
+        x = trunk_tensor(case)
+        out = net(tp.spaces.Points(x, T), supply(case, case["primary"], fs)).as_tensor.detach()
+        with torch.no_grad():
+            tf = net.trunk(tp.spaces.Points(x, T)).numpy()
+        bf = net.branch.current_out.detach().numpy()
+    except Exception as ex:
+        res["problems"].append(f"DeepONet with ConvBranchNet1D raised {type(ex).__name__}: {str(ex)[:160]}")
+        return res
+    if list(out.shape) != [B, N, d] or list(bf.shape) != [B, d, K] or list(tf.shape[-3:]) != [N, d, K]:
+        res["problems"].append(f"ConvBranchNet1D: output {list(out.shape)}, branch features {list(bf.shape)}, trunk features {list(tf.shape)} "
+                               f"for {B} functions, {N} locations, {d} components, {K} neurons each")
+        return res
+    want = np.einsum("ick,jck->ijc", bf, tf[0])
+    res["out"] = out.tolist()
+    if maxdiff(res["out"], want.tolist()) > TOL:
+        res["problems"].append("ConvBranchNet1D: output is not the inner product of branch.current_out[i,c,:] and trunk(points)[j,c,:]")
+    i, j = case["pick"]
+    try:
+        single = dict(case, rank="r2" if case["rank"] == "r2" else "r3x1")
+        o1 = net(tp.spaces.Points(trunk_tensor(single, xs=[case["x"][j]]), T), supply(case, "tensor3", fs, [case["params"][i]])).as_tensor.tolist()
+        if shape_of(o1) != [1, 1, d] or maxdiff(o1[0][0], res["out"][i][j]) > 1e-10:
+            res["problems"].append(f"ConvBranchNet1D: function {i} alone at location {j} alone gives {o1}, in the batch {res['out'][i][j]}")
+        for v in case["variants"]:
+            ov = net(tp.spaces.Points(x, T), supply(case, v, fs)).as_tensor.tolist()
+            if maxdiff(ov, res["out"]) > 1e-12:
+                res["problems"].append(f"ConvBranchNet1D: branch input supplied as {v} gives a different output than supplied as {case['primary']}")
+    except Exception as ex:
+        res["problems"].append(f"ConvBranchNet1D: re-batched / re-supplied evaluation raised {type(ex).__name__}: {str(ex)[:160]}")
+    return res
+
+
 def net_lines(case, res):
     """driver requests of one net case: fwd fast, fwd plain, out (exact contraction), vjp"""
     x = trunk_tensor(case, xs=model_x(case, case["x"])).tolist()
@@ -924,6 +982,8 @@ def evaluate(case):
     if k == "net":
         res = run_net(case)
         return res, net_lines(case, res)
+    if k == "conv":
+        return run_conv(case), []
     if k == "uniq":
         return run_uniq(case), uniq_lines(case)
     if k == "lin":
@@ -939,6 +999,10 @@ def judge(rep, case, res, replies):
     k = case["kind"]
     if k == "net":
         judge_net(rep, case, res, replies)
+    elif k == "conv":
+        rep.count("conv-branch (oracles only)")
+        for p in res["problems"]:
+            rep.fail(p, case)
     elif k == "uniq":
         judge_uniq(rep, case, res, replies[0])
     elif k == "lin":
@@ -951,7 +1015,7 @@ def judge(rep, case, res, replies):
 
 def key_of(case):
     k = case["kind"]
-    if k in ("net", "uniq"):
+    if k in ("net", "uniq", "conv"):
         return [k, case["din"], case["d"], case["neurons"], case["trunk_hidden"], case["branch_hidden"], case["fdim"],
                 case["B"], case["N"], case["rank"], case["primary"], len(case["pts"])]
     if k == "lin":
@@ -963,7 +1027,7 @@ def key_of(case):
 
 def nontrivial(case):
     k = case["kind"]
-    if k in ("net", "uniq"):
+    if k in ("net", "uniq", "conv"):
         return case["B"] * case["N"] >= 2 and case["primary"] != "tensor3bad"
     if k == "lin":
         return len(case["W"]) * len(case["W"][0]) >= 2
@@ -977,6 +1041,8 @@ def sample_of(case, res, replies):
     if k == "net":
         return dict(kind="net", arch=key_of(case), implementation_output=res.get("fast") if not isinstance(res.get("fast"), list) else res["fast"][0][:2],
                     fast_vs_plain_maxreldiff=res.get("o4"), variants_maxdiff=res.get("variants"), model_reply_head=replies[0][:60])
+    if k == "conv":
+        return dict(kind="conv", arch=key_of(case), implementation_output=res["out"][0][:2] if "out" in res else None)
     if k == "uniq":
         return dict(kind="uniq", arch=key_of(case), implementation_output=res["plain"][0][:2] if isinstance(res.get("plain"), list) else res.get("plain"),
                     model_reply_head=replies[0][:60])
